@@ -312,6 +312,9 @@ def rule_keep(ctx, R):
     R.floor("fresh_insert_sites", ns)
 
 
+_MOVED_PT = re.compile(prov.PASS_THROUGH.pattern[:-1] + r"|^std::option::Option::<.*>::(ok_or|ok_or_else|map|filter)(::<.*>)?$)")
+
+
 def rule_x4(ctx, R):
     """index in step (missing-entry direction only): a function that stores a value with a
     deadline (with_expiration / set_expiration) also inserts into expiring_keys; a function that
@@ -343,7 +346,7 @@ def rule_x4(ctx, R):
         for i, t in b.calls():
             if b.bbs[i]["cleanup"] or not re.search(SHARD_MAP + r"insert\b", t["f"] or "") or len(t["a"]) < 3 or op_is_const(t["a"][2]):
                 continue
-            P = prov.operand_origins(b, t["a"][2], stop_calls=re.compile(SHARD_MAP))
+            P = prov.operand_origins(b, t["a"][2], stop_calls=re.compile(SHARD_MAP), pass_through=_MOVED_PT)
             moved = [r for r in P.roots if r[0] == "call" and re.search(SHARD_MAP + r"(remove|remove_entry)\b", r[1])]
             if not moved:
                 continue
